@@ -146,7 +146,9 @@ pub fn run_case(id: &str, r: &mut Rng, out: &mut String) {
         if let Some((ti, _)) = &c.table {
             let k = r.below(9) as usize;
             for j in 0..k {
-                c.pages.insert(*ti, format!("Activity details, continued ({})\nNothing of interest here\n", j + 1));
+                // now and then a page without any text (a chart, a blank back side)
+                let filler = if r.chance(20) { String::new() } else { format!("Activity details, continued ({})\nNothing of interest here\n", j + 1) };
+                c.pages.insert(*ti, filler);
             }
         }
         // what the text-level extractor finds in these pages, read in the order in which the tool
